@@ -258,6 +258,7 @@ type k17MatRec struct {
 
 	HasSvd    bool  `json:"hasSvd"`
 	SvdRecon  int   `json:"svdRecon"`  // bucket of max |U S V^T - M|
+	SvdScaled int   `json:"svdScaled"` // the same for the matrix scaled by 2^-30, 2^-24, 2^20 (error relative to the scale; largest)
 	SvdOrtho  int   `json:"svdOrtho"`  // bucket of max(|U^T U - I|, |V^T V - I|)
 	SvdDiag   int   `json:"svdDiag"`   // bucket of the largest off-diagonal |S_ij|
 	SvdSorted bool  `json:"svdSorted"` // s1 >= s2 >= ...
@@ -296,8 +297,14 @@ type k17MatOps struct {
 	charpl func() []float64
 }
 
-func k17Ops(n int, mi []int) []k17MatOps {
+func k17Ops(n int, mi []int) []k17MatOps { return k17OpsScaled(n, mi, 1) }
+
+// k17OpsScaled: the same matrix with every entry multiplied by a power of two (exact)
+func k17OpsScaled(n int, mi []int, scale float64) []k17MatOps {
 	f := k17Floats(mi)
+	for i := range f {
+		f[i] *= scale
+	}
 	switch n {
 	case 2:
 		var a numerical.Matrix2
@@ -456,6 +463,29 @@ func k17MatGeneral(c k17MatCase, emit func(any)) {
 					}
 				}
 				rec.SvdDiag = k17Bucket(off)
+				// the decomposition does not depend on the unit of the entries
+				worstScaled := 0.0
+				for _, e := range []int{-30, -24, 20} {
+					sc := math.Ldexp(1, e)
+					for _, o2 := range k17OpsScaled(n, c.M, sc) {
+						if o2.site != ops.site {
+							continue
+						}
+						u2, s2, v2 := o2.svd()
+						fs := make([]float64, len(fm))
+						for i := range fm {
+							fs[i] = fm[i] * sc
+						}
+						d := k17MaxDiff(k17Mul(k17Mul(u2, s2, n), k17T(v2, n), n), fs) / sc
+						o := math.Max(k17MaxDiff(k17Mul(k17T(u2, n), u2, n), k17Ident(n)), k17MaxDiff(k17Mul(k17T(v2, n), v2, n), k17Ident(n)))
+						if math.IsNaN(d) || math.IsNaN(o) {
+							worstScaled = math.NaN()
+						} else if !math.IsNaN(worstScaled) {
+							worstScaled = math.Max(worstScaled, math.Max(d, o))
+						}
+					}
+				}
+				rec.SvdScaled = k17Bucket(worstScaled)
 				rec.SvdP, rec.SvdPEx = k17Ints([]float64{sum2, prod}, 1)
 				raw["s"] = s
 			}
